@@ -92,3 +92,7 @@ Definition get_messages (read_limit : Z) (f : list entry) (offset : Z) (ign_ids 
 
 (* the limits of the (repaired) code *)
 Definition LIMIT : Z := 1048576.
+
+(* vocabulary of the effect-order skeletons regenerated from node_service.go *)
+Inductive pstep := PLoadOffset | PGetMessages | PProcess | PSaveOffset.
+Inductive xstep := XLookup | XSend | XSaveFSM | XDelete.
